@@ -89,6 +89,13 @@ check_msg(Ctx &c, int s, nng_msg *m, const char *how)
 		vr_fail("C05:wrong-message", "%s on slot %d delivered %s, model expects %s", how, s, hex(got).c_str(), exp.c_str());
 	}
 	c.cand = keep;
+	// the application owns this message now and may edit it in place (trimming a header is the usual idiom): no other
+	// context's copy of the same publication may change because of that
+	if (nng_msg_len(m) > 0) {
+		memset(nng_msg_body(m), 0xEE, nng_msg_len(m));
+		nng_msg_trim(m, 1);
+	}
+	nng_msg_append(m, "scribble", 8);
 	nng_msg_free(m);
 }
 
@@ -234,6 +241,12 @@ exec_c05(const vcase *vc)
 				vr_tag("mixed_match");
 			if (nm)
 				nmatch_some++;
+			int ndirect = 0;
+			for (int k = 0; k < 4; k++)
+				if (W.c[k].open && W.c[k].pending && W.c[k].done)
+					ndirect++;
+			if (ndirect >= 2)
+				vr_tag("one_publication_completes_2_receives");
 			for (int k = 0; k < 4; k++)
 				if (W.c[k].open && W.c[k].pending) {
 					if (matches(W.c[k], b))
@@ -428,7 +441,7 @@ genOp()
 	return gen::exec([]() {
 		std::ostringstream o;
 		int s = *gen::weightedElement<int>({{5, 0}, {3, 1}, {2, 2}, {1, 3}});
-		int k = *gen::weightedElement<int>({{14, 0}, {8, 1}, {4, 2}, {8, 3}, {2, 4}, {3, 5}, {2, 6}, {3, 7}, {1, 8}});
+		int k = *gen::weightedElement<int>({{14, 0}, {8, 1}, {4, 2}, {8, 3}, {2, 4}, {3, 5}, {2, 6}, {3, 7}, {1, 8}, {2, 9}});
 		switch (k) {
 		case 0: o << "pub " << *pbt::range<int>(0, 1) << " " << *genBytes(6); break;
 		case 1: o << "sub " << s << " " << *genBytes(4); break;
@@ -439,6 +452,19 @@ genOp()
 		case 6: o << "pref " << s << " " << *pbt::range<int>(0, 1); break;
 		case 7: o << "ctxopen " << *pbt::range<int>(1, 3); break;
 		case 8: o << "ctxclose " << *pbt::range<int>(1, 3); break;
+		case 9: {
+			// several receivers waiting for the same publication: contexts (and the socket) subscribed to a common prefix, each with a
+			// receive pending, then one matching message
+			std::string topic = *genBytes(2);
+			int         nctx  = *pbt::range<int>(2, 3);
+			bool        sock  = *pbt::range<int>(0, 1) != 0;
+			for (int q = 1; q <= nctx; q++)
+				o << "ctxopen " << q << "\nsub " << q << " " << topic << "\narecv " << q << "\n";
+			if (sock)
+				o << "sub 0 " << topic << "\narecv 0\n";
+			o << "pub " << *pbt::range<int>(0, 1) << " " << topic << (*genBytes(3)).substr(1);
+			break;
+		}
 		}
 		return o.str();
 	});
